@@ -496,6 +496,25 @@ def match_finding(pid, component, v, findings):
 
 # --------------------------------------------------------------------------------------------- check
 
+def translated_counterexamples(failed, seed):
+    """When a translated_* obligation no longer checks: evaluate the translated terms (regenerated from /repo just now) and
+    the expected observations of the exact theorems on sampled environments (fbdriver transcheck) and return the concrete
+    environments on which they differ - a counterexample in terms of the variables, fields and call results of the Go function."""
+    if not any(".translated_" in t for t in failed) or not os.path.exists(DRIVER):
+        return []
+    out = []
+    try:
+        for sd in (seed, seed + 1000, seed + 2000):
+            p = subprocess.run([DRIVER, "transcheck", str(sd), "4000"], stdout=subprocess.PIPE, stderr=subprocess.STDOUT, text=True, timeout=120)
+            for l in p.stdout.split("\n"):
+                f = l.split("\t")
+                if len(f) >= 5 and f[1] == "CEX" and not any(o["fragment"] == f[0] for o in out):
+                    out.append(dict(fragment=f[0], environment=f[2], translated_code=f[3].replace("got=", "", 1), expected=f[4].replace("expected=", "", 1)))
+    except Exception as e:
+        out.append(dict(error=repr(e)))
+    return out
+
+
 def write_replay(pid, seed, name, payload):
     d = os.path.join(ROOT, "replays")
     os.makedirs(d, exist_ok=True)
@@ -645,7 +664,8 @@ def check(pid, tier):
         path = write_replay(pid, seed, v["id"].replace("/", "_"), dict(
             kind="failing-input", component=comp, input=v["input"], observed=v["impl"], model=v["model"],
             spec_clause=v["clause"], status=v["status"], other_failing=len(unknown_specs) - 1,
-            broken=[(k, d[:3]) for k, d in broken], failed_obligations=proofs["failed"]))
+            broken=[(k, d[:3]) for k, d in broken], failed_obligations=proofs["failed"],
+            translated_counterexamples=translated_counterexamples(proofs["failed"], seed)))
         violations.append((path, ""))
     elif broken:
         # something no longer checks but no input violates the Spec yet: failing-input search with a larger budget
@@ -675,7 +695,7 @@ def check(pid, tier):
             path = write_replay(pid, seed, v["id"].replace("/", "_"), dict(
                 kind="failing-input", component=comp, input=v["input"], observed=v["impl"], model=v["model"],
                 spec_clause=v["clause"], status=v["status"], broken=[(k, d[:3]) for k, d in broken],
-                failed_obligations=proofs["failed"]))
+                failed_obligations=proofs["failed"], translated_counterexamples=translated_counterexamples(proofs["failed"], seed)))
             violations.append((path, ""))
         else:
             first_diff = None
@@ -695,6 +715,7 @@ def check(pid, tier):
                 translated_obligations_still_checking=sorted(t for t in proofs.get("obligations", [])
                                                              if ".translated_" in t and t not in proofs["failed"]),
                 translated_obligations_broken=sorted(t for t in proofs["failed"] if ".translated_" in t),
+                translated_counterexamples=translated_counterexamples(proofs["failed"], seed),
                 first_disagreement=first_diff, lean_output=proofs.get("detail", "")[-3000:],
                 searched="failing-input search over derived seeds with 4x budget per seed found no Spec violation"))
             violations.append((path, " no-failing-input-found"))
